@@ -42,10 +42,14 @@ enum KvP {
 }
 
 fn with_record<T>(r: &RecP, f: impl FnOnce(&Record) -> T) -> T {
+    with_record_t(r, None, f)
+}
+fn with_record_t<T>(r: &RecP, target: Option<&str>, f: impl FnOnce(&Record) -> T) -> T {
     let kvs: Vec<(&str, log::kv::Value)> = r.kvs.iter().map(|(k, v)| (k.as_str(), match v { KvP::S(s) => log::kv::Value::from(s.as_str()), KvP::N(n) => log::kv::Value::from(*n) })).collect();
     let src: &[(&str, log::kv::Value)] = &kvs;
     let mut b = Record::builder();
     b.level(crate::props::spec::level(r.level)).module_path(r.module.as_deref()).file(r.file.as_deref()).line(r.line);
+    if let Some(t) = target { b.target(t); }
     if !kvs.is_empty() {
         b.key_values(&src);
     }
@@ -189,15 +193,24 @@ pub fn execute(ctx: &mut Ctx, lines: &[String]) -> Vec<String> {
                 hex(&bytes)
             }
             // one log call, two outputs (file + additional writer), the clock advances on every read
-            ["OUTS", o1, o2] => {
-                ctx.report.count("op.OUTS");
+            ["OUTS", o1, o2] | ["OUTSW", o1, o2] => {
+                ctx.report.count(&format!("op.{}", t[0]));
+                // OUTSW: the second output is an ADDITIONAL writer (`add_writer`), reached through the
+                // target `{Sec,_Default}` — another path through the logger than the primary writer's fan-out
+                // (the additional writers are served BEFORE the primary writer: `OUTSW <writer> <file>`)
+                let additional = t[0] == "OUTSW";
+                let (o1, o2) = if additional { (o2, o1) } else { (o1, o2) };
                 let p1: Vec<&str> = o1.split(':').collect();
                 let p2: Vec<&str> = o2.split(':').collect();
                 let dir = ctx.work.join(format!("fmt-{}-{}-{li}", std::process::id(), ctx.case_no));
                 let _ = std::fs::remove_dir_all(&dir);
                 let sink = Arc::new(Mutex::new(Vec::new()));
-                let mut lg = flexi_logger::Logger::with(flexi_logger::LogSpecification::trace())
-                    .log_to_file_and_writer(FileSpec::default().directory(&dir).basename("f").suppress_timestamp(), Box::new(FmtWriter { fmt: Mutex::new(flexi_logger::default_format), sink: sink.clone() }))
+                let lg = flexi_logger::Logger::with(flexi_logger::LogSpecification::trace());
+                // (an additional writer keeps the format it was built with; the primary one gets `format_for_writer`)
+                let fw = Box::new(FmtWriter { fmt: Mutex::new(if additional { format_by_name(p2[0]) } else { flexi_logger::default_format }), sink: sink.clone() });
+                let lg = if additional { lg.log_to_file(FileSpec::default().directory(&dir).basename("f").suppress_timestamp()).add_writer("Sec", fw) }
+                    else { lg.log_to_file_and_writer(FileSpec::default().directory(&dir).basename("f").suppress_timestamp(), fw) };
+                let mut lg = lg
                     .format_for_files(format_by_name(p1[0]))
                     .format_for_writer(format_by_name(p2[0]))
                     .error_channel(flexi_logger::ErrorChannel::File(errchan.clone()))
@@ -207,7 +220,7 @@ pub fn execute(ctx: &mut Ctx, lines: &[String]) -> Vec<String> {
                 flexi_logger::verif_hooks::set_virtual_now(Some(stamp_to_local(stamp)));
                 flexi_logger::verif_hooks::set_clock_step_per_read(1_000_000);
                 let r2 = rec.clone();
-                in_thread(rec.thread.clone(), move || with_record(&r2, |r| boxed.log(r)));
+                in_thread(rec.thread.clone(), move || with_record_t(&r2, if additional { Some("{Sec,_Default}") } else { None }, |r| boxed.log(r)));
                 flexi_logger::verif_hooks::set_clock_step_per_read(0);
                 flexi_logger::verif_hooks::set_virtual_now(None);
                 handle.shutdown();
@@ -224,7 +237,7 @@ pub fn execute(ctx: &mut Ctx, lines: &[String]) -> Vec<String> {
                         ctx.report.fail(&case_id, "outputs-differ", &format!("line {li}: the same record, format {}: file has {:?}, additional writer has {:?}", p1[0], String::from_utf8_lossy(&fbytes), String::from_utf8_lossy(&wbytes)));
                     }
                 }
-                format!("{} {}", hex(&fbytes), hex(&wbytes))
+                if additional { format!("{} {}", hex(&wbytes), hex(&fbytes)) } else { format!("{} {}", hex(&fbytes), hex(&wbytes)) }
             }
             _ => format!("bad-op {line}"),
         };
@@ -290,7 +303,13 @@ pub fn gen_c20(tier: &str, seed: u64) -> Vec<Vec<String>> {
             let le = *r.pick(&["lf", "crlf"]);
             let n1 = *r.pick(&names);
             let n2 = if r.chance(1, 3) { n1 } else { *r.pick(&names) };
-            c.push(format!("OUTS {n1}:{le}:{} {n2}:lf:{}", hexs(&ts), hexs(&ts_text(stamp, 1))));
+            if r.chance(1, 2) {
+                c.push(format!("OUTS {n1}:{le}:{} {n2}:lf:{}", hexs(&ts), hexs(&ts_text(stamp, 1))));
+            } else {
+                // the additional writer comes first in time, the file second; nothing but the format
+                // functions reads the clock in between, so either of them would get the first reading
+                c.push(format!("OUTSW {n2}:lf:{} {n1}:{le}:{}", hexs(&ts), hexs(&ts)));
+            }
         }
         c.push("END".into());
         cases.push(c);
